@@ -616,6 +616,11 @@ class Machine:
         if p.parent:
             p.parent.live_children -= 1
             p.parent.dead_unreaped += 1
+        if p.label == "driver":
+            # a command has returned when its driver has: whoever of its children is still running then was not waited for
+            alive = [c.label for c in self.procs if c.parent is p and c.state != "dead"]
+            if alive:
+                self.inv_state[p.inv]["orphans"] += alive
         how = "after-" + (p.exit_event or "nothing")
         if p.injected_end:
             how = p.injected_end
@@ -871,7 +876,7 @@ class Machine:
         try:
             for i in self.which:
                 inv = self.scn["invocations"][i]
-                self.inv_state[i] = {"nfork": 0, "count": {}, "children": [], "ended": [], "fired": [], "temps": [], "waits": [], "exits": [], "opens": [], "unlinks": []}
+                self.inv_state[i] = {"nfork": 0, "count": {}, "children": [], "ended": [], "fired": [], "temps": [], "waits": [], "exits": [], "opens": [], "unlinks": [], "orphans": []}
                 so = open(os.path.join(self.wdir, "stdout.%d" % i), "wb") if inv["stdout"] != "devfull" else open("/dev/full", "wb")
                 se = open(os.path.join(self.wdir, "stderr.%d" % i), "wb") if inv.get("stderr", "file") == "file" else open("/dev/full", "wb")
                 if inv.get("stderr", "file") != "file":
@@ -1201,6 +1206,56 @@ def own_unit_check(scn, inv, m, i, res):
     return v
 
 
+def tool_cmdline_check(inv, m, i, st):
+    v = []
+    argv = inv["argv"]
+    userL = []
+    for k, a in enumerate(argv):
+        if a == "-L" and k + 1 < len(argv):
+            userL.append(argv[k + 1])
+        elif a.startswith("-L") and len(a) > 2:
+            userL.append(a[2:])
+    for c in st["children"]:
+        a = c["argv"]
+        lab = c["label"]
+        if not (lab.startswith("as#") or lab.startswith("ld#")):
+            continue
+        outs = [a[k + 1] for k in range(len(a) - 1) if a[k] == "-o"]
+        if len(outs) != 1:
+            v.append(("O6-tool-command-line", i, "%s is given %d -o options: %s" % (lab, len(outs), " ".join(a[:12]))))
+            continue
+        temps = [x for x in a[1:] if x.startswith("/tmp/chibicc-")]
+        if len(set(temps)) != len(temps):
+            v.append(("O6-tool-command-line", i, "%s is given the same temporary twice" % lab))
+        stale = [x for x in temps if x not in st["temps"]]
+        if stale:
+            v.append(("O6-tool-command-line", i, "%s is given %s, which this invocation never created" % (lab, mach_canon(stale[0]))))
+        if lab.startswith("as#"):
+            ins = [x for k, x in enumerate(a[1:], 1) if not x.startswith("-") and a[k - 1] != "-o"]
+            if len(ins) != 1:
+                v.append(("O6-tool-command-line", i, "%s is given %d inputs" % (lab, len(ins))))
+            tu = next((t for t in m["tus"] if t["as"] == lab), None)
+            if tu and m["mode"] == "c" and tu["output"] and os.path.normpath(outs[0]) != os.path.normpath(tu["output"]):
+                v.append(("O6-tool-command-line", i, "%s writes %s, the unit's object is %s" % (lab, outs[0], tu["output"])))
+        else:
+            want = m["out"] or "a.out"
+            if os.path.normpath(outs[0]) != os.path.normpath(want):
+                v.append(("O6-tool-command-line", i, "the linker writes %s, requested is %s" % (outs[0], want)))
+            for flag in ("-static", "-shared", "-s"):
+                if (flag in argv) != (flag in a[1:]):
+                    v.append(("O6-tool-command-line", i, "%s %s to the linker although the command line %s it" % (flag, "passed" if flag in a else "not passed", "has" if flag in argv else "does not have")))
+            gotL = []
+            for k, x in enumerate(a):
+                if x == "-L" and k + 1 < len(a):
+                    gotL.append(a[k + 1])
+                elif x.startswith("-L") and len(x) > 2:
+                    gotL.append(x[2:])
+            it = iter(gotL)
+            if not all(any(u == g for g in it) for u in userL):
+                v.append(("O6-tool-command-line", i, "the -L directories of the command line (%s) do not reach the linker in that order: %s" % (" ".join(userL), " ".join(gotL))))
+    return v
+
+
 def failed_steps(scn, i, st, m):
     """which pipeline steps failed, judged from what was observed and what was injected"""
     failed = []
@@ -1308,6 +1363,11 @@ def check(env, wdir, scn, res, solo, refs, which):
             t = m["out"] or "a.out"
             if not t.startswith("/") and res["before"].get(t) != res["after"].get(t):
                 v.append(("O2-output-of-unstarted-unit-touched", i, "the linker was never started, yet %s changed" % t))
+        # O1c the command is over when the driver exits: every step must have ended by then (and its status been seen)
+        if st["orphans"] and not any(f.get("proc") == "driver" for f in inv["faults"]):
+            v.append(("O1-driver-returns-before-its-steps-end", i, "the driver exited while %s was still running" % ", ".join(st["orphans"])))
+        # O6 what the assembler and the linker are TOLD (the stubs only hash contents, and would not notice)
+        v += tool_cmdline_check(inv, m, i, st)
         # O5b a driver gives each temporary name up once: after its own unlink the name may be handed to somebody
         # else by mkstemp, so unlinking it again can delete another invocation's file
         seen_u = set()
